@@ -429,14 +429,34 @@ func TestVerif_C12_exec(t *testing.T) {
 		if err != nil {
 			t.Fatal(err)
 		}
+		// ---- round context: previous outcome state, discovery processor present or not, contracts initialised or not
+		pstate := r.Intn(6) // 0 Unknown, 1 Initialized, 2 GetCommitReports, 3 GetMessages, 4 Filter, 5 no previous outcome
+		discOn := !r.Chance(1, 5)
+		initd := r.Bool()
+		var prevB []byte
+		if pstate < 5 {
+			prev := exectypes.Outcome{State: []exectypes.PluginState{exectypes.Unknown, exectypes.Initialized, exectypes.GetCommitReports,
+				exectypes.GetMessages, exectypes.Filter}[pstate]}
+			if pstate >= 2 {
+				prev.PendingCommitReports = []exectypes.CommitData{{SourceChain: 5, MerkleRoot: cciptypes.Bytes32{9},
+					SequenceNumberRange: cciptypes.NewSeqNumRange(1, 3)}}
+			}
+			if prevB, err = prev.Encode(); err != nil {
+				t.Fatal(err)
+			}
+		}
 		p := vC12Plugin(c, vPick(r, c.Oracles))
+		if !discOn {
+			p.discovery = nil
+		}
+		p.contractsInitialized = initd
 		verdict := func() (v string) {
 			defer func() {
 				if e := recover(); e != nil {
 					v = "panic"
 				}
 			}()
-			if err := p.ValidateObservation(ctx, ocr3types.OutcomeContext{}, types.Query{},
+			if err := p.ValidateObservation(ctx, ocr3types.OutcomeContext{SeqNr: 7, PreviousOutcome: prevB}, types.Query{},
 				types.AttributedObservation{Observation: ob, Observer: commontypes.OracleID(o)}); err != nil {
 				return "false"
 			}
@@ -445,11 +465,12 @@ func TestVerif_C12_exec(t *testing.T) {
 		if verdict == "panic" {
 			t.Fatalf("ValidateObservation panicked on case %d", i)
 		}
-		in := cTup(c.coq(), cNi(o), cApp("mkEobs", cList(crS), kcS(msgs), cBool(keysOK), kcS(toks), cNi(costly), kcS(nonces), dS))
+		in := cTup(c.coq(), cTup(cNi(pstate), cBool(discOn), cBool(initd)), cNi(o), cApp("mkEobs", cList(crS), kcS(msgs), cBool(keysOK), kcS(toks), cNi(costly), kcS(nonces), dS))
 		nfields := nreports + len(msgs) + len(toks) + len(nonces) + costly + len(ca)
 		sink.Emit("C12_exec", bad, nfields > 0 && len(unread) > 1, cPair(in, verdict),
 			map[string]any{"oracles": c.Oracles, "readers": c.Readers, "dest": c.Dest, "observer": o,
-				"injected": bad, "fill": fill, "observation": string(ob), "accepted": verdict})
+				"injected": bad, "fill": fill, "prev_state": pstate, "discovery_enabled": discOn, "contracts_initialized": initd,
+				"observation": string(ob), "accepted": verdict})
 	}
 }
 
